@@ -113,7 +113,7 @@ MUTANTS = [
         }
         zck_reset_failed_chunks(zck_tgt);""", 'expect': None},
 ]
-MUTANTS[3]['edits'] = [('src/zck_dl.c', "        while(zck_missing_chunks(zck_tgt) > 0) {", "        do {"),
+[m for m in MUTANTS if m['id'] == 'm04l'][0]['edits'] = [('src/zck_dl.c', "        while(zck_missing_chunks(zck_tgt) > 0) {", "        do {"),
                        ('src/zck_dl.c', """            if(!retval) {
                 exit_val = 1;
                 goto out;
